@@ -234,6 +234,8 @@ impl FieldContext {
 //@ RETURNS r
 //@ CONTRACT
 //@|    ensures r@ == "on"@ + pascal_spec(event_norm(event_name@)),
+//@ FIRST
+//@|    proof { lemma_event_norm_any_order(event_name@); }
 //@ END
 
 //@ EXTRACT-FN file=src/generators/base/template_context.rs in="trait NamingContext" fn=compute_function_name props=C01,C15
@@ -251,6 +253,9 @@ impl FieldContext {
 //@|    proof {
 //@|        lemma_reserved_plus_underscore(function_name@);
 //@|        lemma_underscore_first_not_reserved(function_name@);
+//@|        // the suffix may be appended with format!, push_str or push: all three are this sequence
+//@|        reveal_strlit("_");
+//@|        assert(function_name@.push('_') =~= function_name@ + "_"@);
 //@|        if all_ident_chars(function_name@) { lemma_wrapper_name_is_identifier(function_name@); }
 //@|        assert(ASCII_DIGITS@ =~= seq!['0', '1', '2', '3', '4', '5', '6', '7', '8', '9']);
 //@|        if function_name@.len() > 0 { assert(ASCII_DIGITS@.contains(function_name@[0]) <==> ascii_digit(function_name@[0])) by {
@@ -373,6 +378,50 @@ pub open spec fn tauri_event_name(e: Seq<char>) -> bool {
 /// normalisation applied by event_name_to_function before PascalCase
 pub open spec fn event_norm(e: Seq<char>) -> Seq<char> {
     replace_char(replace_char(replace_char(e, '-', "_"@), ':', "_"@), '/', "_"@)
+}
+
+/// one character replaced by `_`, position by position
+pub open spec fn sub_char(s: Seq<char>, c: char) -> Seq<char> { Seq::new(s.len(), |i: int| if s[i] == c { '_' } else { s[i] }) }
+
+pub proof fn lemma_replace_char_is_sub(s: Seq<char>, c: char)
+    ensures replace_char(s, c, "_"@) == sub_char(s, c),
+    decreases s.len(),
+{
+    reveal_strlit("_");
+    assert("_"@ =~= seq!['_']);
+    if s.len() > 0 {
+        lemma_replace_char_is_sub(s.drop_last(), c);
+        assert(replace_char(s, c, "_"@) =~= sub_char(s, c));
+    } else {
+        assert(replace_char(s, c, "_"@) =~= sub_char(s, c));
+    }
+}
+
+/// the three separators may be normalised in any order: the result is the same text
+pub proof fn lemma_event_norm_any_order(e: Seq<char>)
+    ensures
+        replace_char(replace_char(replace_char(e, '-', "_"@), '/', "_"@), ':', "_"@) == event_norm(e),
+        replace_char(replace_char(replace_char(e, ':', "_"@), '-', "_"@), '/', "_"@) == event_norm(e),
+        replace_char(replace_char(replace_char(e, ':', "_"@), '/', "_"@), '-', "_"@) == event_norm(e),
+        replace_char(replace_char(replace_char(e, '/', "_"@), '-', "_"@), ':', "_"@) == event_norm(e),
+        replace_char(replace_char(replace_char(e, '/', "_"@), ':', "_"@), '-', "_"@) == event_norm(e),
+{
+    lemma_replace_char_is_sub(e, '-'); lemma_replace_char_is_sub(e, ':'); lemma_replace_char_is_sub(e, '/');
+    lemma_replace_char_is_sub(sub_char(e, '-'), ':'); lemma_replace_char_is_sub(sub_char(e, '-'), '/');
+    lemma_replace_char_is_sub(sub_char(e, ':'), '-'); lemma_replace_char_is_sub(sub_char(e, ':'), '/');
+    lemma_replace_char_is_sub(sub_char(e, '/'), '-'); lemma_replace_char_is_sub(sub_char(e, '/'), ':');
+    let n = sub_char(sub_char(sub_char(e, '-'), ':'), '/');
+    lemma_replace_char_is_sub(sub_char(sub_char(e, '-'), ':'), '/');
+    lemma_replace_char_is_sub(sub_char(sub_char(e, '-'), '/'), ':');
+    lemma_replace_char_is_sub(sub_char(sub_char(e, ':'), '-'), '/');
+    lemma_replace_char_is_sub(sub_char(sub_char(e, ':'), '/'), '-');
+    lemma_replace_char_is_sub(sub_char(sub_char(e, '/'), '-'), ':');
+    lemma_replace_char_is_sub(sub_char(sub_char(e, '/'), ':'), '-');
+    assert(sub_char(sub_char(sub_char(e, '-'), '/'), ':') =~= n);
+    assert(sub_char(sub_char(sub_char(e, ':'), '-'), '/') =~= n);
+    assert(sub_char(sub_char(sub_char(e, ':'), '/'), '-') =~= n);
+    assert(sub_char(sub_char(sub_char(e, '/'), '-'), ':') =~= n);
+    assert(sub_char(sub_char(sub_char(e, '/'), ':'), '-') =~= n);
 }
 
 pub open spec fn all_alnum_or_us(s: Seq<char>) -> bool { forall|i: int| 0 <= i < s.len() ==> (ascii_alnum(#[trigger] s[i]) || s[i] == '_') }
